@@ -305,6 +305,37 @@ def property_assumptions(relpath, timeout=600):
     return ok, res, p.stdout + p.stderr
 
 
+def coqchk_all(timeout=3000):
+    """Re-check every compiled Property module (and everything it depends on) with the independent checker
+    coqchk and list the axioms.  Returns (ok, summary dict, raw text)."""
+    mods = []
+    for root, _, fns in os.walk(THEORIES):
+        for fn in fns:
+            if fn == "Property.v" and os.path.exists(os.path.join(root, "Property.vo")):
+                mods.append("SM.%s.Property" % os.path.basename(root))
+    mods.sort()
+    p = subprocess.run(["timeout", str(timeout), "coqchk", "-silent", "-o", "-Q", "theories", "SM"] + mods,
+                       capture_output=True, text=True, cwd=COQ)
+    out = p.stdout + p.stderr
+    sect = {}
+    cur = None
+    for ln in out.splitlines():
+        m = re.match(r"\* (.*?):\s*(<none>)?\s*$", ln.strip())
+        if m:
+            cur = m.group(1); sect[cur] = []
+            continue
+        if cur and ln.strip():
+            sect[cur].append(ln.strip())
+    axioms = sect.get("Axioms", [])
+    ours = [a for a in axioms if a.startswith("SM.")]
+    nonstd = [a for a in axioms if not (a.startswith("Coq.") or a.startswith("Bignums.") or a.startswith("Coquelicot.") or a.startswith("SM."))]
+    bad = [k for k in sect if k != "Axioms" and k != "Theory" and sect[k]]
+    ok = p.returncode == 0 and not ours and not bad
+    summary = dict(modules=mods, returncode=p.returncode, axioms=axioms, axioms_declared_by_this_development=ours,
+                   axioms_outside_coq_stdlib=nonstd, other_sections={k: v for k, v in sect.items() if k != "Axioms"})
+    return ok, summary, out
+
+
 # ----------------------------------------------------------------------------
 # findings, known findings, evidence
 
